@@ -250,3 +250,28 @@ Definition migrate_wrong_allocator (srcs : list Z) : M unit := fun s =>
   end.
 
 End Migration.
+
+(* ================================================================== (c') migration of a contiguous container (stdish::vector) *)
+Section BlockMigration.
+Variables mgrA mgrB isz : Z.
+
+Fixpoint move_all (sb tb : Z) (i : Z) (n : nat) : M unit :=
+  match n with
+  | O => ret tt
+  | S n' => p_move_nt (tb, i) (sb, i) ;;; move_all sb tb (i + 1) n'
+  end.
+
+(* vector(vector&&, const allocator&) with unequal allocators: storage for the n elements from the TARGET allocator, every element
+   move-constructed into it, the source's elements destroyed (the source keeps its storage until it dies) *)
+Definition migrate_block (sb : Z) (n : nat) : M Z :=
+  tb <- p_alloc mgrB (Z.of_nat n * isz) ;; move_all sb tb 0 n ;;; om_destroy_n sb 0 n ;;; ret tb.
+
+(* afterwards the target dies (through B), then the source (through A) *)
+Definition migrate_block_then_destroy (sb : Z) (n : nat) : M unit := fun s =>
+  match migrate_block sb n s with
+  | (Val tb, s1) => (om_destroy_n tb 0 n ;;; p_dealloc mgrB tb (Z.of_nat n * isz) ;;; p_dealloc mgrA sb (Z.of_nat n * isz)) s1
+  | (Exc, s1) => match (om_destroy_n sb 0 n ;;; p_dealloc mgrA sb (Z.of_nat n * isz)) s1 with (Val _, s2) => (Exc, s2) | r => r end
+  | (Stuck, s1) => (Stuck, s1)
+  end.
+
+End BlockMigration.
